@@ -8,6 +8,22 @@ from pathlib import Path
 PROPS = [f"C{i:02d}" for i in range(1, 21)]
 V = Path("/verif")
 
+def _limit():
+    # a check that runs away on one mutant must end as an INTERNAL-ERROR of that (mutant, property) pair, not as an OOM kill of the pool
+    import resource
+    resource.setrlimit(resource.RLIMIT_AS, (3 << 30, 3 << 30))
+
+
+def _map(fn, S, chunk=96):
+    """a fresh pool per chunk of mutants: the per-repository caches of the analyser are keyed by object identity and never evicted, so a worker that
+    lives for the whole matrix grows by ~150 MB per mutant (max_tasks_per_child hangs on Python 3.12.1)"""
+    R = []
+    for i in range(0, len(S), chunk):
+        with ProcessPoolExecutor(16, initializer=_limit) as ex:
+            R += list(ex.map(fn, S[i:i + chunk]))
+    return R
+
+
 def benign_specs():
     out = []
     for d in sorted((V / "benign").iterdir()):
@@ -75,8 +91,7 @@ if __name__ == "__main__":
     if "--benign" in sys.argv:
         # behaviour-preserving refactorings: every report is a false alarm (exit 1) or an unrecognised idiom (exit 2)
         S = benign_specs()
-        with ProcessPoolExecutor(16) as ex:
-            R = list(ex.map(run, S))
+        R = _map(run, S)
         json.dump(R, open(V / "benign" / "matrix.json", "w"), indent=1)
         fa = er = 0
         for r in R:
@@ -90,8 +105,7 @@ if __name__ == "__main__":
         print(f"{len(R)} refactorings x 20 properties: {fa} false alarms, {er} analysis errors")
         sys.exit(0)
     S = specs()
-    with ProcessPoolExecutor(16) as ex:
-        R = list(ex.map(run, S))
+    R = _map(run, S)
     json.dump(R, open(V / "mutants" / "matrix.json", "w"), indent=1)
     for r in R:
         if not r["applied"]:
